@@ -99,12 +99,26 @@ def lean_build():
     return ok, (r.stdout + r.stderr)[-4000:], time.time() - t0
 
 
-def lean_source_grep():
-    """forbidden constructs in our Lean sources (comments stripped)"""
-    hits = []
-    for p in sorted(LEAN.rglob("*.lean")):
-        if ".lake" in p.parts:
+def module_closure(modules):
+    """project files transitively imported by the given modules (plus Main/Driver for the model)"""
+    seen, stack = set(), list(modules) + ["Main"]
+    while stack:
+        m = stack.pop()
+        f = LEAN / (m.replace(".", "/") + ".lean")
+        if m in seen or not f.exists():
             continue
+        seen.add(m)
+        for ln in f.read_text().splitlines():
+            ln = ln.strip()
+            if ln.startswith("import "):
+                stack.extend(ln.split()[1:])
+    return sorted(LEAN / (m.replace(".", "/") + ".lean") for m in seen)
+
+
+def lean_source_grep(modules):
+    """forbidden constructs in the Lean sources the property depends on (comments stripped)"""
+    hits = []
+    for p in module_closure(modules):
         txt = p.read_text()
         # strip block comments then line comments
         out, depth, i = [], 0, 0
@@ -216,7 +230,7 @@ class Ctx:
         if not ok:
             self.proof_broken.append("lake build failed: " + log[-1500:])
             return
-        hits = lean_source_grep()
+        hits = lean_source_grep(self.modules)
         if hits:
             self.proof_broken.append("forbidden construct in Lean sources: " + "; ".join(hits[:5]))
         items = [it for it in lean_audit() if it["module"] in self.modules]
